@@ -102,9 +102,17 @@ def enumerate_sites(prog, scope):
     reach = prog.reachable_from(roots)
     out = {}
     n_fns = 0
+    extra = set()
+    if scope == "backend":
+        # functions of the front-end crates that only the back end reaches (the generator asks the checker's
+        # name tables): nothing else enumerates their panic sites
+        fe_roots, fe_crates = scope_roots(prog, "frontend")
+        fe_reach = prog.reachable_from(fe_roots)
+        extra = {fid for fid in reach if fid not in fe_reach and prog.fns.get(fid) is not None
+                 and prog.fns[fid].crate in fe_crates and prog.fns[fid].crate not in crates}
     for fid in sorted(reach):
         fn = prog.fns.get(fid)
-        if fn is None or fn.crate not in crates or fn.kind == "const":
+        if fn is None or (fn.crate not in crates and fid not in extra) or fn.kind == "const":
             continue
         if common.is_derived(fn):
             continue
